@@ -99,3 +99,14 @@ Theorem C07_source_unsplit_result : forall scheme netloc url query fragment : st
   gen_unsplit_result scheme netloc url query fragment = unsplit_result scheme netloc url query fragment.
 Proof. exact gen_unsplit_result_eq. Qed.
 Print Assumptions C07_source_unsplit_result.
+
+(** ... and so is make_netloc (the authority text every URL stores and str() prints): the
+    source is re-read as a decision tree - each [x is None] / truthiness test narrows the
+    Optional it tests, f"{ret}:{port}" is the decimal text of the port, QUOTER is the
+    parameter q - and equals the model that the recomposition (C07), pickling (C09),
+    fixed-point (C03/C04) and authority (C01) theorems are about.  [@lru_cache] is read as
+    the identity decorator (C08: a cache over a pure function is the function). *)
+Theorem C07_source_make_netloc : forall (q : str -> str) (user password host : option str) (port : option N) (encode : bool),
+  gen_make_netloc q user password host port encode = make_netloc q user password host port encode.
+Proof. exact gen_make_netloc_eq. Qed.
+Print Assumptions C07_source_make_netloc.
